@@ -415,12 +415,39 @@ func keyOfCL(tag string, pairs []cl) string {
 // other input union ("each area of the Venn diagram receives only one label"); only index
 // sets with a non-empty region are returned; no index set is returned twice; each
 // Intersection cell union is normalized.  That is what is compared against the leaf sets.
-func (s *S) find1() {
+func (s *S) find1() { s.findCase(nil) }
+
+// findFixed: small fixed inputs that every run checks first.
+func (s *S) findFixed() {
+	p := faceCell(0)
+	k := kids(p)
+	a := uint64(0x6b12b00000000001)
+	b := nextSame(a)
+	for _, in := range [][][]uint64{
+		{{p}, {p}, {k[0], k[1]}, {k[2], k[3]}}, // {0,1} has no exclusive region
+		{{a, b}, {a, b}, {a}, {b}},
+		{{p}, {k[1]}},
+		{{k[0], k[1]}, {k[1], k[2]}, {k[2], k[3]}},
+		{{a}, {b}},
+		{{}, {a}},
+	} {
+		s.findCase(in)
+	}
+}
+
+func (s *S) findCase(fixed [][]uint64) {
 	c, g := s.c, s.g
 	n := 2 + g.n(5)
+	sel := g.n(5)
+	if fixed != nil {
+		n, sel = len(fixed), -1
+	}
 	raw := make([][]uint64, n)
 	class := ""
-	switch g.n(5) {
+	switch sel {
+	case -1:
+		class = "fixed"
+		copy(raw, fixed)
 	case 0, 1:
 		class = "tiny-same-base"
 		d := 2 + g.n(2)
@@ -468,7 +495,7 @@ func (s *S) find1() {
 			}
 		}
 	}
-	roughInput := g.n(3) == 0
+	roughInput := fixed == nil && g.n(3) == 0
 	sets := make([]lset, n)
 	in := make([]s2.CellUnion, n)
 	shown := make([][]string, n)
@@ -536,6 +563,11 @@ func (s *S) find1() {
 		w, has := want[mask]
 		switch {
 		case !has && len(cells) == 0:
+			// reported once per run (with the minimal fixed input of findFixed when it reproduces)
+			if s.emptyFindReported {
+				break
+			}
+			s.emptyFindReported = true
 			c.Violate("s2intersect.Find.emptyIntersection", fmt.Sprintf("Find returns index set %v with an EMPTY cell union (no leaf is covered by exactly these unions)", x.Indices), rep)
 		case !has:
 			c.Violate("s2intersect.Find", fmt.Sprintf("index set %v returned with cells although no leaf is covered by exactly these unions", x.Indices), rep)
